@@ -57,12 +57,20 @@ type c07Op struct {
 	im   string // "~" | "*" | "bogus" | "@prev" | concrete ETag (as returned, with quotes)
 	up   int    // upload ordinal (cmpl)
 	off  string // "~" | "@prev" | decimal
+	ents []c07DelEntry // dels: the entries of one bulk DeleteObjects call, in order
 	// filled at run time
 	imUsed  string
 	offUsed string
 	inv     uint64
 	resp    uint64
 	res     string
+}
+
+// c07DelEntry is one entry of a bulk delete: the main key ("obj") or a scratch key, with an
+// optional If-Match value ("~" | "bogus" | "@prev" | concrete ETag).
+type c07DelEntry struct {
+	key string
+	im  string
 }
 
 type c07Stack struct {
@@ -260,6 +268,12 @@ func c07Run(out *verifx.Out, cs *c07Stack, k int, seed uint64, p *c07Plan) {
 			args = fmt.Sprintf("im=%s", o.imUsed)
 		case "app":
 			args = fmt.Sprintf("%s off=%s", verifx.Hex(o.body), o.offUsed)
+		case "dels":
+			es := make([]string, len(o.ents))
+			for i, e := range o.ents {
+				es[i] = e.key + ":" + e.im
+			}
+			args = "e=" + strings.Join(es, ",")
 		}
 		out.Line("cop %d g=%d inv=%d resp=%d %s %s %s %s", o.id, o.g, o.inv, o.resp, o.name, b, key, args)
 		out.Line("cres %d %s", o.id, o.res)
@@ -375,6 +389,38 @@ func c07Exec(ctx context.Context, st storage.Storage, bucket storage.BucketName,
 		}
 		*lastEtag, *lastSize = res.ETag, res.Size
 		o.res = fmt.Sprintf("ok etag=%s size=%d", res.ETag, res.Size)
+	case "dels":
+		entries := make([]storage.DeleteObjectsInputEntry, len(o.ents))
+		for i := range o.ents {
+			e := &o.ents[i]
+			if e.im == "@prev" {
+				e.im = "bogus"
+				if *lastEtag != "" {
+					e.im = *lastEtag
+				}
+			}
+			entries[i] = storage.DeleteObjectsInputEntry{Key: storage.MustNewObjectKey(e.key), IfMatchETag: imArg(e.im)}
+		}
+		o.inv = seq.Add(1)
+		res, err := st.DeleteObjects(ctx, bucket, entries)
+		o.resp = seq.Add(1)
+		if err != nil {
+			fail(err)
+			return
+		}
+		rs := make([]string, len(res.Entries))
+		for i, e := range res.Entries {
+			switch {
+			case e.Deleted:
+				rs[i] = "D"
+			case e.ErrCode == "PreconditionFailed":
+				rs[i] = "P"
+			default:
+				rs[i] = "X"
+			}
+		}
+		*lastEtag, *lastSize = "", -1
+		o.res = "ok r=" + strings.Join(rs, ",")
 	case "head":
 		o.inv = seq.Add(1)
 		obj, err := st.HeadObject(ctx, bucket, key, nil)
@@ -567,6 +613,35 @@ func c07Directed() []*c07Plan {
 			}
 			plans = append(plans, p)
 		}
+		// (8) bulk deletes with a STALE If-Match entry next to unconditional entries, in every order:
+		// the acknowledged replacement must survive (behind the outbox the batch must run synchronously
+		// as soon as ANY entry is conditional)
+		{
+			g := &c07Gen{r: verifx.NewRng(78)}
+			p := &c07Plan{stack: stack, ver: "off", kind: "mixed", hasInit: true}
+			p.init = g.body()
+			e0 := c07ETag(p.init)
+			orders := [][]c07DelEntry{
+				{{"obj", e0}, {"scrA", "~"}},
+				{{"scrB", "~"}, {"obj", e0}},
+				{{"scrC", "~"}, {"obj", e0}, {"scrD", "~"}},
+			}
+			var pr []*c07Op
+			u := g.op(0, "put")
+			u.body = g.body()
+			pr = append(pr, u)
+			for _, ents := range orders {
+				d := g.op(0, "dels")
+				d.ents = ents
+				pr = append(pr, d, g.op(0, "head"))
+			}
+			p.progs = append(p.progs, pr)
+			h := g.op(1, "head")
+			d := g.op(1, "dels")
+			d.ents = []c07DelEntry{{"scrE", "~"}, {"obj", "bogus"}}
+			p.progs = append(p.progs, []*c07Op{h, d})
+			plans = append(plans, p)
+		}
 		// (5) write offsets one byte off the current size must be refused (C12)
 		{
 			g := &c07Gen{r: verifx.NewRng(75)}
@@ -739,6 +814,30 @@ func c07Generate(seed uint64, tier string) *c07Plan {
 				}
 				return o
 			}
+			// a bulk delete: the main key (conditional or not) and a scratch key, in either order, or
+			// two entries for the main key
+			mkDels := func() *c07Op {
+				o := g.op(gi, "dels")
+				main := c07DelEntry{key: "obj", im: "~"}
+				if !uncond() || r.Chance(3, 4) {
+					main.im = imChoice()
+					if main.im == "*" {
+						main.im = e0 // the bulk form has no wildcard
+					}
+				}
+				scratch := c07DelEntry{key: fmt.Sprintf("scr%d", o.id), im: "~"}
+				switch r.Intn(4) {
+				case 0:
+					o.ents = []c07DelEntry{main, scratch}
+				case 1:
+					o.ents = []c07DelEntry{scratch, main}
+				case 2:
+					o.ents = []c07DelEntry{main}
+				default:
+					o.ents = []c07DelEntry{scratch, main, {key: fmt.Sprintf("scx%d", o.id), im: "bogus"}}
+				}
+				return o
+			}
 			switch p.kind {
 			case "inmrace":
 				switch x := r.Intn(10); {
@@ -759,9 +858,11 @@ func c07Generate(seed uint64, tier string) *c07Plan {
 					o = mkPut("im")
 				case x < 7:
 					o = mkCmpl("im")
-				case x < 9:
+				case x < 8:
 					o = g.op(gi, "del")
 					o.im = imChoice()
+				case x < 9:
+					o = mkDels()
 				default:
 					o = g.op(gi, "head")
 				}
@@ -804,11 +905,13 @@ func c07Generate(seed uint64, tier string) *c07Plan {
 					o = mkPut("im")
 				case x < 13:
 					o = mkCmpl(verifx.Pick(r, []string{"", "inm", "im"}))
-				case x < 16:
+				case x < 15:
 					o = g.op(gi, "del")
 					if !uncond() || r.Chance(2, 3) {
 						o.im = imChoice()
 					}
+				case x < 17:
+					o = mkDels()
 				case x < 18:
 					o = g.op(gi, "head")
 				default:
@@ -849,7 +952,15 @@ func runC07(args []string) {
 			il.Close()
 		}
 	}()
-	total := len(directed) + nIL + f.Cases
+	combosS := c07ILSCombos()
+	nILS := len(combosS) * c07ILMaxBoundary
+	var ils *c07ILSEnv
+	defer func() {
+		if ils != nil {
+			ils.Close()
+		}
+	}()
+	total := len(directed) + nIL + nILS + f.Cases
 	for k := 0; k < total; k++ {
 		if !f.Wants(k) {
 			continue
@@ -862,6 +973,15 @@ func runC07(args []string) {
 			}
 			i := k - len(directed)
 			il.run(out, k, seed, combos[i/c07ILMaxBoundary], i%c07ILMaxBoundary)
+			continue
+		}
+		if k >= len(directed)+nIL && k < len(directed)+nIL+nILS {
+			// … and at the storage API (AppendObject, CompleteMultipartUpload)
+			if ils == nil {
+				ils = newC07ILSEnv(f.Scratch)
+			}
+			i := k - len(directed) - nIL
+			ils.run(out, k, seed, combosS[i/c07ILMaxBoundary], i%c07ILMaxBoundary)
 			continue
 		}
 		var p *c07Plan
